@@ -10,7 +10,7 @@ An AV over-approximates the set of run-time values an expression can have:
 """
 from __future__ import annotations
 
-from dataclasses import dataclass, replace
+from dataclasses import dataclass, field, replace
 from typing import Any, Iterable
 
 # ---- labels ---------------------------------------------------------------
@@ -40,7 +40,7 @@ class Part:
     kind: str  # lit | hole | macro
     text: str = ""  # literal text / description of hole / macro key
     labels: frozenset[str] = frozenset()
-    origin: str = ""  # where the hole's value came from (diagnostics)
+    origin: str = field(default="", compare=False)  # where the hole's value came from (diagnostics only)
 
     def __repr__(self) -> str:
         if self.kind == "lit":
@@ -52,6 +52,7 @@ class Part:
 
 Parts = tuple  # tuple[Part, ...]
 MAX_ALTS = 48
+MAX_PARTS = 10  # widening: longer concatenations (accumulating error texts) lose their structure
 MAX_DEPTH = 4
 
 
@@ -66,10 +67,19 @@ class AV:
     funcs: frozenset[Any] = frozenset()
     consts: "frozenset[Any] | None" = None
     bound: "AV | None" = None  # receiver for bound methods
+    attrs: "tuple[tuple[str, AV], ...] | None" = None  # inline fields of small value classes (Value, Class, ...)
+
+    def attr(self, name: str) -> "AV | None":
+        if self.attrs is None:
+            return None
+        for k, v in self.attrs:
+            if k == name:
+                return v
+        return None
 
     @property
     def is_bottom(self) -> bool:
-        return not (self.types or self.labels or self.funcs or self.elem or self.tup or self.alts)
+        return not (self.types or self.labels or self.funcs or self.elem or self.tup or self.alts or self.attrs)
 
     def with_labels(self, labels: Iterable[str]) -> "AV":
         return replace(self, labels=frozenset(labels), alts=None, consts=None)
@@ -114,6 +124,12 @@ def canon_alts(alts: "frozenset[Parts] | None") -> "frozenset[Parts] | None":
     Keeps the set small and lets early-iteration (less informed) alternatives be absorbed by later ones."""
     if alts is None or len(alts) <= 1:
         return alts
+    # an alternative with an empty-label hole denotes no string at all (nothing flows there yet): drop it
+    live = frozenset(a for a in alts if all(p.kind != "hole" or p.labels for p in a))
+    if live:
+        alts = live
+    if len(alts) <= 1:
+        return alts
     groups: dict[tuple, list[Parts]] = {}
     for alt in alts:
         key = tuple((p.kind, p.text if p.kind != "hole" else "") for p in alt)
@@ -133,8 +149,10 @@ def canon_alts(alts: "frozenset[Parts] | None") -> "frozenset[Parts] | None":
                 origin = ""
                 for mbr in members_:
                     labs |= mbr[i].labels
-                    desc = desc or mbr[i].text
-                    origin = origin or mbr[i].origin
+                descs_ = sorted(mbr[i].text for mbr in members_ if mbr[i].text)
+                desc = descs_[0] if descs_ else ""
+                origins_ = sorted(mbr[i].origin for mbr in members_ if mbr[i].origin)
+                origin = origins_[0] if origins_ else ""
                 merged.append(Part("hole", desc, labs, origin))
         out.add(tuple(merged))
     return frozenset(out)
@@ -181,12 +199,19 @@ def join(a: "AV | None", b: "AV | None", _d: int = 0) -> AV:
         alts = a.alts
     elif b.alts is not None and not a_str:
         alts = b.alts
+
     consts = None
     if a.consts is not None and b.consts is not None:
         u2 = a.consts | b.consts
         consts = u2 if len(u2) <= 64 else None
     bound = join(a.bound, b.bound, _d + 1) if (a.bound is not None or b.bound is not None) else None
-    return AV(types, labels, elem, key, tup, alts, funcs, consts, bound)
+    attrs = None
+    if a.attrs is not None and b.attrs is not None:
+        da, db = dict(a.attrs), dict(b.attrs)
+        attrs = tuple(sorted((k, join(da.get(k), db.get(k), _d + 1)) for k in set(da) | set(db)))
+    elif a.attrs is not None or b.attrs is not None:
+        attrs = a.attrs if a.attrs is not None else b.attrs
+    return AV(types, labels, elem, key, tup, alts, funcs, consts, bound, attrs)
 
 
 def _deep_labels(a: "AV | None") -> frozenset[str]:
@@ -195,10 +220,33 @@ def _deep_labels(a: "AV | None") -> frozenset[str]:
     out = set(a.labels)
     out |= _deep_labels(a.elem)
     out |= _deep_labels(a.key)
+    if a.attrs:
+        for _, v in a.attrs:
+            out |= _deep_labels(v)
     if a.tup:
         for t in a.tup:
             out |= _deep_labels(t)
     return frozenset(out)
+
+
+def join_keep(a: "AV | None", b: "AV | None") -> AV:
+    """join that keeps string structure when one side is unstructured (used for macro parameters, whose call
+    sites are few): the unstructured side becomes a one-hole alternative. Once collapsed it stays collapsed."""
+    if a is None or a.is_bottom:
+        return b if b is not None else BOTTOM
+    if b is None or b.is_bottom:
+        return a
+    out = join(a, b)
+    if out.alts is None and (a.alts is not None or b.alts is not None):
+        if a.alts is not None and b.alts is None and b.labels and not getattr(b, "_collapsed", False):
+            u = canon_alts(a.alts | as_parts(b))
+        elif b.alts is not None and a.alts is None and a.labels:
+            return out  # `a` (the accumulated value) already lost its structure: absorbing
+        else:
+            return out
+        if u is not None and len(u) <= MAX_ALTS:
+            return replace(out, alts=u)
+    return out
 
 
 def join_all(vals: Iterable["AV | None"]) -> AV:
@@ -252,7 +300,7 @@ def concat(vals: list[AV], descs: "list[str] | None" = None, origin: str = "") -
         for s in seqs:
             for alt in alts:
                 new.append(norm_parts(s + alt))
-        if len(new) > MAX_ALTS:
+        if len(new) > MAX_ALTS or any(len(s_) > MAX_PARTS for s_ in new):
             ok = False
             break
         seqs = new
